@@ -630,6 +630,9 @@ func exhaustive(w *vlib.Writer) {
 	for i, a := range dispWords {
 		for j, b := range dispWords {
 			for _, k := range []int{0, 8, 3} {
+				if k != 0 && (i > 8 || j > 8) {
+					continue
+				}
 				st := tree.ComputedFromCascaded(nil, nil, parent, nil)
 				st.SetDisplay(pr.Display{a, b, dispWords[k]})
 				res := 0
@@ -728,7 +731,8 @@ func main() {
 		}
 	}
 	exhaustive(w)
-	for w.N() < *n {
+	base := w.N()
+	for w.N() < base+*n {
 		r := rng.Fork()
 		src, tags := genDoc(r)
 		if c, ok := runDoc(src, "tree", tags); ok {
